@@ -4,8 +4,15 @@ From LV Require Import Base LayerEnv LayerEnvFacts.
 From LV.Checks Require Import C04Hold.
 From LVGen Require GenLayerEnv.
 
+(* the model run with the loop body of LayerEnvDelta::apply as the translator regenerated it from
+   the source (GenLayerEnv.gen_delta_step), not with the hand-written delta_step *)
+Definition gen_delta_apply (order : list beh) (d : delta) (e : env) : env :=
+  fold_left (fun e b => fold_left (fun e kv => GenLayerEnv.gen_delta_step d b e (fst kv) (snd kv)) (dget d b) e) order e.
+Definition gen_le_apply (order : list beh) (t : scope_table) (e : layer_env) (s : scope) (e0 : env) : env :=
+  fold_left (fun acc d => gen_delta_apply order d acc) (deltas_for t e s) e0.
+
 Definition model_out (l : list ins) (c : case) : env :=
-  le_apply GenLayerEnv.beh_order GenLayerEnv.scope_fields (le_of_inserts l) (c_scope c) (bof_list (c_env0 c)).
+  gen_le_apply GenLayerEnv.beh_order GenLayerEnv.scope_fields (le_of_inserts l) (c_scope c) (bof_list (c_env0 c)).
 
 Definition agrees (c : case) : bool :=
   bytes_map_eqb (c_out c) (model_out (c_ins c) c) &&
